@@ -344,6 +344,7 @@ func visitInstr(fr *frame, instr ssa.Instruction) continuation {
 		succ := 1
 		cv := fr.get(instr.Cond)
 		if sc, ok := cv.(sym); ok {
+			fr.i.X.siteFr = fr
 			cv = fr.i.X.decide(sc.t)
 		}
 		if cv.(bool) {
